@@ -66,16 +66,27 @@ def norm_proj(p):
         elif isinstance(e, dict) and "downcast" in e:
             nxt = p[i + 1] if i + 1 < len(p) else None
             if e["downcast"] in UNWRAP_VARIANTS and isinstance(nxt, dict) and nxt.get("f") == 0:
-                out.append(("U",))
+                out.append(PE(("U",)))
                 i += 1
             else:
-                out.append(("v", e["downcast"]))
+                out.append(PE(("v", e["downcast"])))
         elif isinstance(e, dict) and "f" in e:
-            out.append(("f", e["f"], e.get("name"), e.get("adt") or e.get("closure")))
+            out.append(PE(("f", e["f"], e.get("name"), e.get("adt") or e.get("closure"))))
         elif isinstance(e, dict) and ("index" in e or "constindex" in e):
-            out.append(("idx",))
+            out.append(PE(("idx",)))
         i += 1
     return tuple(out)
+
+
+class PE(tuple):
+    """A path element: ("f", index, name, adt) | ("v", variant) | ("U",) | ("idx",) | ("item",). Indexing past the end gives None so
+    that rules asking for a field name of a non-field element do not crash."""
+    __slots__ = ()
+
+    def __getitem__(self, i):
+        if isinstance(i, int) and (i >= len(self) or i < -len(self)):
+            return None
+        return tuple.__getitem__(self, i)
 
 
 def const_key(c):
@@ -222,10 +233,10 @@ class Tracer:
         if args and (name in TRANSPARENT or decl in TRANSPARENT):
             return self._op(args[0], path, visiting)
         if args and (name in UNWRAPPING or decl in UNWRAPPING):
-            return self._op(args[0], (("U",),) + path, visiting)
+            return self._op(args[0], (PE(("U",)),) + path, visiting)
         if self.follow_next and args and (name in ITER_NEXT or decl in ITER_NEXT):
             if path and path[0] == ("U",):
-                return self._op(args[0], (("item",),) + path[1:], visiting)
+                return self._op(args[0], (PE(("item",)),) + path[1:], visiting)
         return {Origin("call", bb, path)}
 
     # ------------------------------------------------------------ conveniences
